@@ -48,4 +48,8 @@ CASES = [
                 "                latest = self.samples_dict or {}\n                for k in latest:\n                    p.reg_refs[k].val = latest[k][-1]")]},
     {"id": "twin-state-local", "expect": "silent",
      "edits": [(GB, "            modes = self.get_modes()\n", "            active = self.get_modes()\n            modes = list(active)\n")]},
+    {"id": "twin-del-mode-one-at-a-time-remapped-each-time", "expect": "silent",
+     "edits": [("backends/fockbackend/backend.py", '        remapped_modes = self._remap_modes(modes)\n        if isinstance(remapped_modes, int):\n            remapped_modes = [remapped_modes]\n        self.circuit.dealloc(remapped_modes)\n        self._modemap.delete(modes)\n', '        if isinstance(modes, int):\n            modes = [modes]\n        for m in modes:\n            self.circuit.dealloc([self._remap_modes(m)])\n            self._modemap.delete([m])\n')]},
+    {"id": "del-mode-stale-positions", "expect": "fire", "key": "C08.remap",
+     "edits": [("backends/fockbackend/backend.py", '        remapped_modes = self._remap_modes(modes)\n        if isinstance(remapped_modes, int):\n            remapped_modes = [remapped_modes]\n        self.circuit.dealloc(remapped_modes)\n        self._modemap.delete(modes)\n', '        if isinstance(modes, int):\n            modes = [modes]\n        for pos in self._remap_modes(modes):\n            self.circuit.dealloc([pos])\n        self._modemap.delete(modes)\n')]},
 ]
